@@ -98,6 +98,9 @@ func H_whitelist() {
 		if mask&(1<<i) != 0 {
 			wl[int64(i)] = true
 			count++
+		} else if rt.HasParam("falses") {
+			// the same subset, written as an explicit verdict per index
+			wl[int64(i)] = false
 		}
 	}
 	p, err := patcher.New(seeksource.FromBytes(patch), hlib.Consumer)
